@@ -484,7 +484,7 @@ def gen_tables(mods):
 
 def gen_codec():
     trees = {}
-    L = ['/- GENERATED by gen/py2lean.py from /repo on every run — do not edit. -/', 'import BU.Py', 'import BU.PyList', 'open Py', '',
+    L = ['/- GENERATED by gen/py2lean.py from /repo on every run — do not edit. -/', 'import BU.Py', 'import BU.PyList', 'open Py', 'set_option linter.unusedVariables false', '',
          'namespace Gen', '']
     fps = {}
     for name, (file, qual, params, ret) in SIG.items():
